@@ -1286,7 +1286,7 @@ Definition benign (s : ostate) (o : op) : Prop :=
   | Recv p cfg nf m =>
       if cfg then True else
       match m with
-      | MProto from to b => b = BGarbage \/ (to = None -> f05 fx = true)
+      | MProto from to b _ => b = BGarbage \/ (to = None -> f05 fx = true)
       | MRespTree (Some tm) (Some ro) => benign_mk fx tm ro
       | MTreeMarshal tm => forall id t, lookup id (store s) = Some (Have t) -> benign_mk fx tm (t_roster t)
       | MReqRoster _ => f07 fx = true \/ existsb is_req (store s) = false
@@ -1483,7 +1483,7 @@ Proof. intros ops s. apply trace_safe_gen. repeat split. Qed.
 Example benign_hist_satisfiable :
   benign_hist crash_unfixed init
     [LocalTree (mkTree 1 (mkRo 1 [mkMem 1 true; mkMem 4 true; mkMem 2 true]) (TM 1 1 [TM 4 4 []; TM 2 2 []]));
-     Recv 1 false false (MProto (Some (mkTok 1 1 1 0 90 1)) (Some (mkTok 1 1 1 0 90 4)) BPing);
+     Recv 1 false false (MProto (Some (mkTok 1 1 1 0 90 1)) (Some (mkTok 1 1 1 0 90 4)) BPing 0);
      Recv 3 false false (MReqRoster 1);
      Recv 3 false false (MRespTree (Some (mkTMar 2 1 [TM 1 1 []])) (Some (mkRo 1 [mkMem 1 true])))].
 Proof.
@@ -1623,14 +1623,14 @@ Proof using HB HC.
 Qed.
 
 (* a protocol message of a legitimate run on a stored tree reaches the handler *)
-Theorem serves_protocol_message : forall s p nf from k t f,
+Theorem serves_protocol_message : forall s p nf d from k t f,
   Inv s -> lookup (tk_tree k) (store s) = Some (Have t) ->
   will_deliver s t (mkP p from k BPing) f ->
-  let r := step fx s (Recv p false nf (MProto from (Some k) BPing)) in
+  let r := step fx s (Recv p false nf (MProto from (Some k) BPing d)) in
   r_out r = Ok /\ In (EDeliver k (tk_node f)) (r_events r).
 Proof using HB HC.
-  intros s p nf from k t f I Ht W. pose proof I as (Hl & Hi).
-  edestruct (step_of_returns fx s (Recv p false nf (MProto from (Some k) BPing))) as (m' & E & Hx & Hq); [exact I| |].
+  intros s p nf d from k t f I Ht W. pose proof I as (Hl & Hi).
+  edestruct (step_of_returns fx s (Recv p false nf (MProto from (Some k) BPing d))) as (m' & E & Hx & Hq); [exact I| |].
   { cbn [run_op process touches]. apply transmit_returns; [(split; [|split]; first [assumption|reflexivity])|discriminate]. }
   cbn zeta. rewrite E. cbn [r_out r_events]. split; [reflexivity|].
   apply In_rev_iff. destruct (Hq k eq_refl) as (Hd & _). apply (Hd t f); assumption.
@@ -1638,19 +1638,19 @@ Qed.
 
 (* ... on a tree the server does not have: the message is parked and its sender is
    asked for the tree (also when the tree was requested before from other peers) *)
-Theorem asks_sender_for_tree : forall s p nf from k b,
+Theorem asks_sender_for_tree : forall s p nf d from k b,
   Inv s -> b <> BGarbage -> reachable p = true ->
   (lookup (tk_tree k) (store s) = None \/
    (f71 fx = true /\
     exists asked, lookup (tk_tree k) (store s) = Some (Req asked) /\ mem_nat p asked = false)) ->
-  let r := step fx s (Recv p false nf (MProto from (Some k) b)) in
+  let r := step fx s (Recv p false nf (MProto from (Some k) b d)) in
   r_out r = Ok /\
   In (ESend p (RReqTree (tk_tree k))) (r_events r) /\
   In (mkP p from k b) (parked (r_state r)) /\
   exists asked', lookup (tk_tree k) (store (r_state r)) = Some (Req asked').
 Proof using HB HC.
-  intros s p nf from k b I Hb Hr Hs. pose proof I as (Hl & Hi).
-  edestruct (step_of_returns fx s (Recv p false nf (MProto from (Some k) b))) as (m' & E & Hx & Hq); [exact I| |].
+  intros s p nf d from k b I Hb Hr Hs. pose proof I as (Hl & Hi).
+  edestruct (step_of_returns fx s (Recv p false nf (MProto from (Some k) b d))) as (m' & E & Hx & Hq); [exact I| |].
   { cbn [run_op process touches].
     destruct b; [| |contradiction]; (apply transmit_returns; [(split; [|split]; first [assumption|reflexivity])|discriminate]). }
   cbn zeta. rewrite E. cbn [r_out r_events r_state]. split; [reflexivity|].
@@ -1688,15 +1688,15 @@ Qed.
    service re-registering its tree: a legitimate message of a run of the registered protocol
    (token not finished before, addressed to a node of the stored tree, sent by the server of a
    node of that tree) reaches the handler. Peers cannot finish, forge away or wedge it. *)
-Theorem still_serves_after_any_history : forall ops s p nf from k t f,
+Theorem still_serves_after_any_history : forall ops s p nf d from k t f,
   Inv s -> lookup (tk_tree k) (store s) = Some (Have t) ->
   mem_tok k (finished s) = false -> search t (tk_node k) <> None -> proto_known (tk_proto k) = true ->
   deliverable t p from BPing f ->
   (forall o, In o ops -> ~ p_tree (touches o) (tk_tree k) /\ o <> LocalDone k) ->
-  let r := step fx (run fx s ops) (Recv p false nf (MProto from (Some k) BPing)) in
+  let r := step fx (run fx s ops) (Recv p false nf (MProto from (Some k) BPing d)) in
   r_out r = Ok /\ In (EDeliver k (tk_node f)) (r_events r).
 Proof using HB HC.
-  intros ops s p nf from k t f I Ht Hf Hs Hp Hd Hops.
+  intros ops s p nf d from k t f I Ht Hf Hs Hp Hd Hops.
   apply serves_protocol_message with (t := t).
   - apply trace_safe_gen; [exact HB|exact I|apply benign_hist_crash_fixed, HC].
   - apply known_tree_stays_gen; try assumption. intros o Ho. apply Hops, Ho.
@@ -1737,6 +1737,12 @@ Proof.
     (split; [reflexivity|]; unfold tok_eqb; rewrite ?Nat.eqb_refl; reflexivity).
 Qed.
 
+(* the type a peer declares in the ProtocolMsg plays no role: the handler is chosen by the type
+   of the decoded message *)
+Lemma declared_type_ignored : forall fx s p c nf from to b d d',
+  step fx s (Recv p c nf (MProto from to b d)) = step fx s (Recv p c nf (MProto from to b d')).
+Proof. reflexivity. Qed.
+
 (* ---- Part 5: the unrepaired variants -------------------------------------------------------- *)
 
 (* the genuine roster (servers 1, 4 = this server, 2) and trees of the harness *)
@@ -1748,7 +1754,7 @@ Definition roH : roster := mkRo 5 [mkMem 3 true].
 Definition kx (tree round : nat) : token := mkTok 1 tree 1 0 round 4.
 Definition kfrom (tree round node : nat) : token := mkTok 1 tree 1 0 round node.
 Definition ping (p tree round from : nat) : op :=
-  Recv p false false (MProto (Some (kfrom tree round from)) (Some (kx tree round)) BPing).
+  Recv p false false (MProto (Some (kfrom tree round from)) (Some (kx tree round)) BPing 0).
 
 Definition outs (fx : fixes) (ops : list op) : list outcome := map r_out (trace fx init ops).
 
@@ -1756,7 +1762,7 @@ Definition outs (fx : fixes) (ops : list op) : list outcome := map r_out (trace 
 Lemma f05_refuted :
   exists ops, In (Crashed CNilTo) (outs (only 5) ops) /\ ~ In (Crashed CNilTo) (outs all_fixed ops).
 Proof.
-  exists [Recv 3 false false (MProto (Some (kfrom 1 20 1)) None BPing)].
+  exists [Recv 3 false false (MProto (Some (kfrom 1 20 1)) None BPing 0)].
   vm_compute. split; [auto|]. intros [H|[]]. discriminate.
 Qed.
 
@@ -1880,7 +1886,7 @@ Qed.
 
 (* the pinned code (no repair at all): the whole corpus of witnesses at once *)
 Lemma pinned_code_refuted :
-  In (Crashed CNilTo) (outs none_fixed [Recv 3 false false (MProto (Some (kfrom 1 20 1)) None BPing)]) /\
+  In (Crashed CNilTo) (outs none_fixed [Recv 3 false false (MProto (Some (kfrom 1 20 1)) None BPing 0)]) /\
   In (Crashed CNoChildren) (outs none_fixed [ping 1 2 12 1; Recv 3 false false (MRespTree (Some (mkTMar 2 1 [])) (Some roG))]) /\
   In (Crashed CNilTreeInStore) (outs none_fixed [ping 1 2 12 1; Recv 3 false false (MReqRoster 9)]) /\
   leaked (run none_fixed init [Recv 3 false false (MRoster roH)]) = [LPTree].
